@@ -208,11 +208,12 @@ Definition slice_parts (i : val) : option (val * val) :=
                      match field_get "lo" fs, field_get "hi" fs with Some lo, Some hi => Some (lo, hi) | _, _ => None end
                    else None
   | _ => None end.
-Definition slice_bounds (i : val) (n : nat) : option (nat * nat) :=     (* [start, stop) clipped to the length, non-negative bounds only *)
+Definition slice_bounds (i : val) (n : nat) : option (nat * nat) :=     (* [start, stop) clipped to the length; negative bounds count from the end *)
   match slice_parts i with
   | Some (lo, hi) =>
-      match (match lo with VNone => Some 0%nat | VInt z => if (z <? 0)%Z then None else Some (Nat.min (Z.to_nat z) n) | _ => None end),
-            (match hi with VNone => Some n | VInt z => if (z <? 0)%Z then None else Some (Nat.min (Z.to_nat z) n) | _ => None end) with
+      let clip (z : Z) := if (z <? 0)%Z then Z.to_nat (Z.max 0 (Z.of_nat n + z)) else Nat.min (Z.to_nat z) n in
+      match (match lo with VNone => Some 0%nat | VInt z => Some (clip z) | _ => None end),
+            (match hi with VNone => Some n | VInt z => Some (clip z) | _ => None end) with
       | Some a, Some b => Some (a, b)
       | _, _ => None end
   | None => None
@@ -371,6 +372,13 @@ Definition fold_num (f : R -> R -> R) (l : list val) : res val :=
              | y :: r' => match to_x y with Some (Fin y0) => go (f acc y0) r' | _ => Stuck "min/max: non-finite" end end) x0 r
       | _ => Stuck "min/max: non-finite" end
   end.
+Definition np_mean (l : list val) (w : world) : res (val * world) :=
+  do sw <- vsum_l l w; num2 m_div (fst sw) (VInt (Z.of_nat (length l))) (snd sw).
+Definition np_average (l wl : list val) (w : world) : res (val * world) :=
+  do pw <- bcast 3 Mul (VList l) (VList wl) w;
+  match fst pw with
+  | VList p => do sw <- vsum_l p (snd pw); do tw <- vsum_l wl (snd sw); num2 m_div (fst sw) (fst tw) (snd tw)
+  | _ => Stuck "np.average" end.
 Definition builtin (name : string) (args : list val) (kws : list (string * val)) (w : world) : option (res (val * world)) :=
   match name with
   | "slice" => Some (pure_ (match args with [lo; hi] => Ok (mk_slice lo hi) | _ => Stuck "slice arity" end) w)
@@ -390,6 +398,23 @@ Definition builtin (name : string) (args : list val) (kws : list (string * val))
   | "sum" => Some (match args with [a] => do l <- as_list a; vsum_l l w | _ => Exc "TypeError" end)
   | "np.zeros_like" => Some (pure_ (match args with [a] => do l <- as_list a; Ok (VArr (map (fun _ => VNum (Fin 0)) l)) | _ => Exc "TypeError" end) w)
   | "np.ones_like" => Some (pure_ (match args with [a] => do l <- as_list a; Ok (VArr (map (fun _ => VNum (Fin 1)) l)) | _ => Exc "TypeError" end) w)
+  | "np.mean" => Some (match args with [a] => do l <- as_list a; np_mean (flatten2 l) w | _ => Stuck "np.mean: arity" end)
+  | "np.average" => Some (match args with
+                         | [a] => do l <- as_list a;
+                                  match field_get "weights" kws with
+                                  | None | Some VNone => np_mean l w
+                                  | Some wv => do wl <- as_list wv; np_average l wl w end
+                         | [a; wv] => do l <- as_list a; do wl <- as_list wv; np_average l wl w
+                         | _ => Stuck "np.average: arity" end)
+  | "np.std" => Some (match args with
+                     | [a] => do l <- as_list a; do mw <- np_mean l w;
+                              do dw <- bcast 3 Sub (VList l) (fst mw) (snd mw); do sw <- bcast 3 Pow (fst dw) (VInt 2) (snd dw);
+                              do ll <- as_list (fst sw); do vw <- np_mean ll (snd sw);
+                              match to_x (fst vw) with Some x => lift_x (m_sqrt x (snd vw)) | None => Stuck "np.std" end
+                     | _ => Stuck "np.std: arity" end)
+  | "zip" => Some (pure_ (match args with
+                     | [a; b] => do la <- as_list a; do lb <- as_list b; Ok (VList (map (fun p => VTuple [fst p; snd p]) (combine la lb)))
+                     | _ => Stuck "zip: arity" end) w)
   | "np.where" => Some (pure_ (match args with [m] => np_where m | _ => Stuck "np.where: arity" end) w)
   | "np.shape" => Some (pure_ (match args with
                      | [a] => match seq_payload a with
@@ -690,6 +715,12 @@ Fixpoint eval (fuel : nat) (e : expr) (ρ : env) (w : world) {struct fuel} : res
                                   (* an attribute holding a callable object: obj.attr(args) = attr.__call__(args) *)
                                   match field_get m fs with
                                   | Some (VObj ocls ofs) =>
+                                      if String.eqb ocls "<bound method>" then
+                                        match field_get "self" ofs, field_get "cls" ofs, field_get "name" ofs with
+                                        | Some o, Some (VStr bc), Some (VStr bm) =>
+                                            match methods G bc bm with Some c => call f c (Some o) argv kwv (snd rw) | None => Stuck "bound method" end
+                                        | _, _, _ => Stuck "bound method" end
+                                      else
                                       match methods G ocls "__call__" with
                                       | Some c => call f c (Some (VObj ocls ofs)) argv kwv (snd rw)
                                       | None => Stuck ("object not callable " ++ ocls) end
@@ -716,6 +747,9 @@ Fixpoint eval (fuel : nat) (e : expr) (ρ : env) (w : world) {struct fuel} : res
                   | "get", [k; dflt] => Ok (match dict_get k d with Some v => v | None => dflt end, snd rw)
                   | "keys", [] => Ok (VList (map fst d), snd rw)
                   | _, _ => Stuck ("dict method " ++ m) end
+              | VNum _ | VInt _ =>
+                  if String.eqb m "reshape" then match argv with [VInt 1; VInt (-1)] => Ok (VArr [VList [fst rw]], snd rw) | _ => Stuck "reshape" end
+                  else Stuck "call: receiver"
               | _ => Stuck "call: receiver"
               end
           | EName x =>
